@@ -99,7 +99,8 @@ def wrap_content_first(layout, tag, body):
 
 
 def declared_index(tagset, tag):
-    """index of the declared tag equal to `tag` with the same type; 'unspec' if only == with another type; None otherwise."""
+    """index of the declared tag equal to `tag` with the same type; None otherwise (a number of another kind that merely
+    compares equal included); 'unspec' if a non-number is only == with another type."""
     if tag is ABSENT:
         return None
     eq_other = False
@@ -111,6 +112,8 @@ def declared_index(tagset, tag):
                 eq_other = True
         except Exception:  # noqa
             pass
+    if eq_other and isinstance(tag, (bool, int, float, complex)):
+        return None      # tags are literal values like Literal[...]'s: 1.0 and True are not the tag 1 (C02: a float is never taken for an int)
     return 'unspec' if eq_other else None
 
 
